@@ -8,6 +8,7 @@ import (
 
 	"github.com/enbility/spine-go/api"
 	"github.com/enbility/spine-go/model"
+	"github.com/enbility/spine-go/spine"
 	"github.com/enbility/spine-go/util"
 
 	"verifharness/rig"
@@ -15,7 +16,11 @@ import (
 
 // C03 — a remote write takes effect only with a binding and write permission.
 //
-// One case = one World: local server features S0 [1]/1 (DeviceClassification: user data writable, manufacturer
+// The entity addresses of the local server features are a dimension of their own (c03Layouts): S0/S1 live in entity eA, S2 in eB, and
+// (eA, eB) is seeded per world from flat [1]+[2] and nested / sibling pairs ([1]+[1,1], [1,1]+[1], [1]+[1,1,1], [1,2,1]+[1], [1,1]+[1,2],
+// [1,1]+[2,1], [2]+[1,2]); S0 and S2 always carry the same feature id, so "a binding to THAT feature" is told apart by the entity part alone.
+//
+// One case = one World: local server features S0 eA/1 (classically [1]/1; DeviceClassification: user data writable, manufacturer
 // data mostly read-only), S1 [1]/2 (Identification: list writable, session list mostly not added) and S2 [2]/1
 // (DeviceClassification: manufacturer data writable, user data mostly not added). "Writable" is read-write or WRITE-ONLY, the second
 // function is drawn from {read-only, added without any operation, write-only, read-write, not added}, and the application may add a missing
@@ -37,7 +42,7 @@ func init() {
 	rig.Register(&rig.Check{
 		ID:    "C03",
 		Floor: 450,
-		Rule: "case = one World (3 local server features mixing functions registered read-write, WRITE-ONLY, read-only, without any operation and not added at all (seeded per world: the primary function of a feature is RW 70 % / WO 30 %, the second one RO / -- / WO / RW / not added); 'announced as writable' is decided by the possibleOperations in the reply to a nodeManagementDetailedDiscoveryData read that a connected peer sends immediately before every write, not by the registration and not by Operations().Write(); " +
+		Rule: "case = one World (3 local server features S0 = eA/1, S1 = eA/2, S2 = eB/1 whose entity addresses (eA, eB) are seeded per world: flat [1]+[2] (30 %) or related as parent/child, grandparent/grandchild (either direction), siblings that differ in the last element, cousins that differ in the first element only, or an entity of another branch with the same last element - S0 and S2 always share the feature id, missing parent entities are created feature-less, creation order of the entities is seeded; half of the writes to a server feature nobody is bound to come from a client that holds the binding on the other server feature of the same type; mixing functions registered read-write, WRITE-ONLY, read-only, without any operation and not added at all (seeded per world: the primary function of a feature is RW 70 % / WO 30 %, the second one RO / -- / WO / RW / not added); 'announced as writable' is decided by the possibleOperations in the reply to a nodeManagementDetailedDiscoveryData read that a connected peer sends immediately before every write, not by the registration and not by Operations().Write(); " +
 			"3 identically numbered peers x 3 client features per type in the entities [1], [1,1] and [2], in 45 % of the worlds ONE peer whose detailed discovery data (reply, re-announcements, partial and full notifies) never carries deviceInformation.description.deviceAddress (absent, or present without device): the stack knows no device address for it and all its addresses are device-less; subscribers on every server feature) and a seeded history of 15-30 operations " +
 			"{bind, bind by another peer, unbind, disconnect, reconnect + re-announce, AddFunctionType by the application in mid-history (a function that was never added gets RW / WO / RO / --, or an added one is registered again with the opposite flags) followed by writes of the holder and of a non-holder to that function, re-announcement WITHOUT reconnect (the detailed discovery reply once more, or a partial notify lastStateChange=added for a known entity; same addresses, roles and types, in every second one new description texts; by a binding holder or a bystander; the shadow registry is unchanged by it), " +
 			"remote entities removed by ONE discovery notify that takes away one, two or three of [1], [1,1], [2] at once - a partial notify listing them with lastStateChange=removed (every sixth one names an entity the stack never knew first) or a FULL (filter-less) notify of the remaining tree that no longer lists them (and may list an absent one again); " +
@@ -117,6 +122,55 @@ type c03World struct {
 	// bareDisc: peers WITH a device address whose detailed discovery data names it once, in deviceInformation, and gives every
 	// entityAddress / featureAddress without device part (what most real devices send); the others repeat it in every address
 	bareDisc [3]bool
+	// layout: where the local server features live (c03Layouts): the entity of S0 and S1 and the entity of S2
+	layout c03Layout
+}
+
+// c03Layout: the addresses of the two local entities that carry the server features (S0 = eA/1, S1 = eA/2, S2 = eB/1 - feature ids
+// restart at 1 in every entity, so S0 and S2 always share the feature id and differ in the entity part only). Besides the flat classic
+// one, the entity addresses are related in every way two SPINE entity addresses can be: one extends the other (child / grandchild, in
+// either direction), siblings that differ in the last element only, or in the first element only, or in length and last element.
+// The parents a nested entity needs are created as well (feature-less unless they are one of the two).
+type c03Layout struct {
+	name   string
+	eA, eB []uint
+	weight int
+}
+
+var c03Layouts = []c03Layout{
+	{"flat:[1]+[2]", []uint{1}, []uint{2}, 6},
+	{"S2-nested-under-S0:[1]+[1,1]", []uint{1}, []uint{1, 1}, 4},
+	{"S0-nested-under-S2:[1,1]+[1]", []uint{1, 1}, []uint{1}, 3},
+	{"S2-grandchild-of-S0:[1]+[1,1,1]", []uint{1}, []uint{1, 1, 1}, 1},
+	{"S0-grandchild-of-S2:[1,2,1]+[1]", []uint{1, 2, 1}, []uint{1}, 1},
+	{"siblings-last-element-differs:[1,1]+[1,2]", []uint{1, 1}, []uint{1, 2}, 2},
+	{"cousins-first-element-differs:[1,1]+[2,1]", []uint{1, 1}, []uint{2, 1}, 2},
+	{"nephew-same-last-element:[2]+[1,2]", []uint{2}, []uint{1, 2}, 1},
+}
+
+// c03EntRel: how the entity address a relates to b (evidence only).
+func c03EntRel(a, b []model.AddressEntityType) string {
+	n := len(a)
+	if len(b) < n {
+		n = len(b)
+	}
+	common := 0
+	for common < n && a[common] == b[common] {
+		common++
+	}
+	switch {
+	case len(a) == len(b) && common == n:
+		return "same-entity"
+	case common == len(b):
+		return "nested-under-it"
+	case common == len(a):
+		return "parent-of-it"
+	case len(a) == len(b) && common == n-1:
+		return "sibling-last-element-differs"
+	case len(a) == len(b) && common == 0:
+		return "first-element-differs"
+	}
+	return "other-branch"
 }
 
 var c03Names = []string{"S0", "S1", "S2"}
@@ -148,8 +202,40 @@ func newC03World(c *rig.Ctx) *c03World {
 	cw := &c03World{w: rig.NewWorld(c.Tag()), srv: map[string]*c03Srv{}, pf: map[string]rkPeerFeat{}, binds: map[string]c03Holder{}, subs: map[string]bool{}, noAddr: -1}
 	w := cw.w
 	r := c.Rand
-	e1 := w.AddEntity(model.EntityTypeTypeCEM, []uint{1}, 4*time.Second)
-	e2 := w.AddEntity(model.EntityTypeTypeCEM, []uint{2}, 4*time.Second)
+	// the local entity layout (seeded per world): flat, or nested / sibling entity addresses (see c03Layouts)
+	{
+		var ws []any
+		for _, l := range c03Layouts {
+			ws = append(ws, l.name, l.weight)
+		}
+		name := c03Pick(r, ws...)
+		for _, l := range c03Layouts {
+			if l.name == name {
+				cw.layout = l
+			}
+		}
+	}
+	c.Count("local_entity_layout:"+cw.layout.name, 1)
+	// entities are created parents first or in the order (eA, eB) / (eB, eA) with the missing parents in between: the position in the
+	// device's entity list is no part of an address
+	made := map[string]*spine.EntityLocal{}
+	mkEnt := func(addr []uint) *spine.EntityLocal {
+		for n := 1; n <= len(addr); n++ {
+			k := fmt.Sprint(addr[:n])
+			if made[k] == nil {
+				made[k] = w.AddEntity(model.EntityTypeTypeCEM, append([]uint{}, addr[:n]...), 4*time.Second)
+			}
+		}
+		return made[fmt.Sprint(addr)]
+	}
+	var e1, e2 *spine.EntityLocal
+	if r.Intn(2) == 0 {
+		e1 = mkEnt(cw.layout.eA)
+		e2 = mkEnt(cw.layout.eB)
+	} else {
+		e2 = mkEnt(cw.layout.eB)
+		e1 = mkEnt(cw.layout.eA)
+	}
 	ud, md := model.FunctionTypeDeviceClassificationUserData, model.FunctionTypeDeviceClassificationManufacturerData
 	il, sl := model.FunctionTypeIdentificationListData, model.FunctionTypeSessionIdentificationListData
 	// Every server feature has a primary function that is writable - read-write or WRITE-ONLY - and a second function of the same type
@@ -435,7 +521,8 @@ func c03Case(c *rig.Ctx) {
 	fail := func(sig, format string, a ...any) {
 		c.Violate(sig, "%s\n history:\n  %s", fmt.Sprintf(format, a...), strings.Join(hist, "\n  "))
 	}
-	shape = append(shape, fmt.Sprintf("world:no-device-address=%d/%s:device-less-discovery-addresses=%v", cw.noAddr, cw.noAddrForm, cw.bareDisc))
+	shape = append(shape, fmt.Sprintf("world:no-device-address=%d/%s:device-less-discovery-addresses=%v:layout=%s", cw.noAddr, cw.noAddrForm, cw.bareDisc, cw.layout.name))
+	log("world: local server features S0 %s, S1 %s, S2 %s (layout %s)", rkKey(cw.srv["S0"].f.Address()), rkKey(cw.srv["S1"].f.Address()), rkKey(cw.srv["S2"].f.Address()), cw.layout.name)
 	log("world: peer without device address: %d (%s); peers whose discovery data carries device-less entity/feature addresses: %v; registrations S0 %v, S1 %v, S2 %v", cw.noAddr, cw.noAddrForm, cw.bareDisc, cw.srv["S0"].reg, cw.srv["S1"].reg, cw.srv["S2"].reg)
 	accepted, refused, afterRevocation, teardowns := 0, 0, 0, 0
 	var queue []c03Write                      // writes forced by a preceding revocation
@@ -919,6 +1006,13 @@ func c03Case(c *rig.Ctx) {
 		c.Count("write_class:"+wr.class, 1)
 		// the announcement dimension: what was announced for the written function, who held the binding, what happened
 		verdict := map[bool]string{true: "accepted", false: "refused"}[authorised]
+		// the address dimension: the writer holds a binding on another server feature - how does the written feature's address relate to that one?
+		for _, o := range c03Names {
+			if oh, ok := cw.binds[o]; ok && o != wr.srv && oh.peer == wr.peer && oh.cli == wr.cli && announced {
+				oa, sa := cw.srv[o].f.Address(), s.f.Address()
+				c.Count(fmt.Sprintf("writes_by_the_holder_of_another_server_feature:written_entity_is_%s:same_feature_id=%v:same_feature_type=%v:%s", c03EntRel(sa.Entity, oa.Entity), *oa.Feature == *sa.Feature, cw.srv[o].typ == s.typ, verdict), 1)
+			}
+		}
 		c.Count(fmt.Sprintf("written_function_announced_as:%s:by_the_binding_holder=%v:%s", ops, byHolder, verdict), 1)
 		c.Count("announcement_taken_from:"+opsFrom, 1)
 		if wr.peer == cw.noAddr {
@@ -1093,6 +1187,15 @@ func c03Case(c *rig.Ctx) {
 			switch {
 			case !bound:
 				wr.class, wr.peer, wr.cli = "no-binding-on-feature", pi, cw.clientsFor(srv)[r.Intn(3)]
+				// half of them by a client that holds a binding on ANOTHER server feature of the same type (same feature id in another -
+				// parent, nested, sibling or unrelated - entity): a binding to that feature is not a binding to this one
+				if r.Intn(2) == 0 {
+					for _, o := range hs {
+						if oh := cw.binds[o]; cw.srv[o].typ == s.typ && (wr.class == "no-binding-on-feature" || r.Intn(2) == 0) {
+							wr.class, wr.peer, wr.cli = "no-binding-on-feature:writer-holds-other-feature", oh.peer, oh.cli
+						}
+					}
+				}
 			case k < 40:
 				wr.class, wr.peer, wr.cli = "holder", h.peer, h.cli
 			case k < 51:
